@@ -308,7 +308,11 @@ def corruptions(ref, op, payload, other_variant):
         emit("obj<-scalar@" + pstr, mutate(path, set_to(5)))
         Rv = v.get("__typename") if s.kind(b) != "object" else b
         coll = ref.collect(sub, Rv)
-        has_required = any(k2 != "__typename" and is_nn((s.field(Rv, it2[2]) or s.field(b, it2[2]))["type"]) for k2, it2 in coll.items() if it2[0] == "field")
+        # the Rust type of a member follows the declaration in whose scope it is selected (an implementing object may narrow
+        # `T` to `T!`; selected in the interface's scope the member is still optional)
+        sc2 = ref.collect_scopes(sub, Rv, b)
+        has_required = any(k2 != "__typename" and is_nn((s.field(sc2.get(k2) or Rv, it2[2]) or s.field(Rv, it2[2]) or s.field(b, it2[2]))["type"])
+                           for k2, it2 in coll.items() if it2[0] == "field")
         if has_required or s.kind(b) != "object":
             # `[]` in place of an object: every key is missing, so it must fail when a non-null key (or the
             # `__typename` tag of an abstract position) is among them. serde also reads structs from sequences,
@@ -320,6 +324,7 @@ def corruptions(ref, op, payload, other_variant):
         abstract = s.kind(static_type) != "object"
         R = obj.get("__typename") if abstract else static_type
         fields = ref.collect(items, R)
+        scopes = ref.collect_scopes(items, R, static_type)
         for key, it in fields.items():
             here = path + (key,)
             hs = pstr + "/" + key
@@ -334,7 +339,7 @@ def corruptions(ref, op, payload, other_variant):
                     # a non-string tag: an error, or - with the other-variant option - possibly the Unknown variant
                     emit("typename<-int@" + hs, mutate(here, set_to(7)), ("unknown-or-err", []) if other_variant else "err")
                 continue
-            f = s.field(R, it[2]) or s.field(static_type, it[2])
+            f = s.field(scopes.get(key) or R, it[2]) or s.field(R, it[2]) or s.field(static_type, it[2])
             t = f["type"]
             if is_nn(t):
                 emit("null@" + hs, mutate(here, set_to(None)))
